@@ -327,11 +327,24 @@ def errclass(e):
     return 9
 
 
+_DT = [0]
+
+
 def make_writer(cfg, chdir, uuid="verif-uuid", path=None):
     """path: the str object naming chdir that the caller holds (a later session of the same recorder passes the
     very same object again); default: a fresh spelling of chdir"""
     import digital_rf
-    return digital_rf.DigitalRFWriter(path if path is not None else common.path_form(chdir), cfg.realdtype, cfg.sc, cfg.fc, cfg.start, cfg.n, cfg.d, uuid,
+    # the element type in the forms np.dtype() accepts: a dtype object, its string, its name / scalar type (native order)
+    _DT[0] += 1
+    dt = cfg.realdtype
+    k = _DT[0] % 4
+    if k == 1:
+        dt = dt.str
+    elif k == 2 and dt.isnative:
+        dt = dt.name
+    elif k == 3 and dt.isnative:
+        dt = dt.type
+    return digital_rf.DigitalRFWriter(path if path is not None else common.path_form(chdir), dt, cfg.sc, cfg.fc, cfg.start, cfg.n, cfg.d, uuid,
                                       cfg.comp, cfg.cksum, cfg.is_complex, cfg.nsub, cfg.cont, False)
 
 
